@@ -3,7 +3,7 @@
    `ScanOk`, discharged by kvquery's KVM.Proofs_Coherent.coherent_scanner_correct).  Output:
    the ids yielded for authorkinds [(pubkey, kind)] until=T are exactly the ids of the stored
    events of that author and kind created at or before T (likewise authors [pubkey]). *)
-From NR Require Import Lib.Base Lib.BaseFacts Lib.Nip01 KVM.Engine KVM.Keys KVM.Scan KVM.ScanSpec
+From NR Require Import Lib.Base Lib.BaseFacts Lib.Nip01 KVM.Engine KVM.Keys KVM.Scan KVM.ScanSpec KVM.Proofs_Blocks
      KVW.Types KVW.Entries KVW.Write KVW.PostSave KVW.Proofs_Engine KVW.Proofs_Tx KVW.Proofs_Keys
      KVW.Proofs_Coherent.
 From Coq Require Import ZifyBool.
@@ -15,14 +15,14 @@ Lemma lex4 (a3 a2 a1 a0 b3 b2 b1 b0 : N) :
   lex_cmp [a3; a2; a1; a0] [b3; b2; b1; b0] =
   N.compare (a3 * 16777216 + a2 * 65536 + a1 * 256 + a0) (b3 * 16777216 + b2 * 65536 + b1 * 256 + b0).
 Proof.
-  intros. simpl. symmetry.
-  destruct (N.compare a3 b3) eqn:E3; [apply N.compare_eq in E3 | apply N.compare_lt_iff in E3 | apply N.compare_gt_iff in E3];
+  intros. cbn [lex_cmp]. symmetry.
+  destruct (N.compare a3 b3) eqn:E3; [apply N.compare_eq in E3 | rewrite N.compare_lt_iff in E3 | rewrite N.compare_gt_iff in E3];
     [| apply N.compare_lt_iff; lia | apply N.compare_gt_iff; lia].
-  destruct (N.compare a2 b2) eqn:E2; [apply N.compare_eq in E2 | apply N.compare_lt_iff in E2 | apply N.compare_gt_iff in E2];
+  destruct (N.compare a2 b2) eqn:E2; [apply N.compare_eq in E2 | rewrite N.compare_lt_iff in E2 | rewrite N.compare_gt_iff in E2];
     [| apply N.compare_lt_iff; lia | apply N.compare_gt_iff; lia].
-  destruct (N.compare a1 b1) eqn:E1; [apply N.compare_eq in E1 | apply N.compare_lt_iff in E1 | apply N.compare_gt_iff in E1];
+  destruct (N.compare a1 b1) eqn:E1; [apply N.compare_eq in E1 | rewrite N.compare_lt_iff in E1 | rewrite N.compare_gt_iff in E1];
     [| apply N.compare_lt_iff; lia | apply N.compare_gt_iff; lia].
-  destruct (N.compare a0 b0) eqn:E0; [apply N.compare_eq in E0 | apply N.compare_lt_iff in E0 | apply N.compare_gt_iff in E0];
+  destruct (N.compare a0 b0) eqn:E0; [apply N.compare_eq in E0 | rewrite N.compare_lt_iff in E0 | rewrite N.compare_gt_iff in E0];
     [apply N.compare_eq_iff; lia | apply N.compare_lt_iff; lia | apply N.compare_gt_iff; lia].
 Qed.
 
